@@ -162,7 +162,7 @@ def _arg_domain(name, ann, obj, ops):
                                         "raise_on")):
         return [True, False]
     if lname == "other" and type(obj).__name__ == "Sequence":
-        return [ops["other"]]
+        return [ops[k] for k in ("other", "other_overlap", "other_same") if k in ops]
     if lname in ("other", "location", "parent_location"):
         return [ops["loc_other"], ops["loc_empty"]]
     if lname == "distance_type":
@@ -239,6 +239,15 @@ def _log(ev, kind, m, args, o):
         ev.append(["call", kind, m, args, ["v", 1]])
         if tn in ("SingleInterval", "CompoundInterval", "_EmptyLocation"):
             ev.append(["result", kind, m, E.loc(val)])
+        elif tn == "Sequence":
+            # a returned sequence that records where it sits on its parent has exactly that many residues
+            lp = None
+            try:
+                lp = val.location_on_parent
+            except Exception:
+                pass
+            ev.append(["seqresult", kind, m, len(val), len(lp) if lp is not None else -1,
+                       E.loc(lp) if lp is not None else [[], "e"]])
     else:
         ev.append(["call", kind, m, args, o])
 
